@@ -25,6 +25,7 @@ def parseCfg (ws : List String) : Option Cfg :=
           else if k = "maxresp" then some { c with maxResp := n }
           else if k = "maxext" then some { c with maxExt := n }
           else if k = "limit" then some { c with batchLimit := n }
+          else if k = "xin" then some { c with extIn := n != 0 }
           else if k = "inst" || k = "hdr" then some c
           else none
         | none => none
@@ -52,17 +53,45 @@ def step (st : St) (ws : List String) : St × String :=
   | "x" :: inst :: route :: schema :: vals :: rest =>
     match rest.getLast?, inst.toNat?, schemaOk? schema, parseVals vals with
     | some last, some i, some sok, some vs =>
-      match parseKV "wire" last, parseMetaWords st.w rest.dropLast with
-      | some wire, some md =>
-        match routeOf st.w md route with
-        | some (dyn, pr) =>
-          let req : Req := { inst := i, routeProducer := pr, dynamic := dyn, md := md,
-                             vals := if schema = "empty" then [] else vs,
-                             schemaOk := sok, exact := schema = "ok", env := { wire := wire } }
-          let (resp, w', evs) := handleExchange cfg st.w req
-          ({ st with cfg := some cfg, w := w' }, showResp w' resp evs true)
+      let words := rest.dropLast
+      -- "@" / "@!" separates the pointer batch's metadata from the fetched batch's
+      let ptrWords := words.takeWhile fun x => x != "@" && x != "@!"
+      let tail := words.drop ptrWords.length
+      let fetch? : Option (Option (Option (List String))) := match tail with
+        | [] => some none
+        | "@" :: fw => some (some (some fw))
+        | ["@!"] => some (some none)
+        | _ => none
+      match parseKV "wire" last, parseMetaWords st.w ptrWords, fetch? with
+      | some wire, some md, some fetch =>
+        let fetched? : Option (Option (Option Fetched)) := match fetch with
+          | none => some none
+          | some none => some (some none)
+          | some (some fw) => match parseMetaWords st.w fw with
+            | some fmd => some (some (some { md := fmd, vals := if schema = "empty" then [] else vs,
+                                             schemaOk := sok, exact := schema = "ok" }))
+            | none => none
+        match fetched? with
         | none => (st, "bad-op")
-      | _, _ => (st, "bad-op")
+        | some fe =>
+          -- the cursor that decides the kind of a dynamic route is the one the request resolves to
+          let probe : Req := { md := md, fetch := fe }
+          let lookMd := match resolveInput cfg probe with
+            | .ok r => r.md
+            | .error _ => md
+          match routeOf st.w lookMd route with
+          | some (dyn, pr) =>
+            let req : Req :=
+              match fe with
+              | none => { inst := i, routeProducer := pr, dynamic := dyn, md := md,
+                          vals := if schema = "empty" then [] else vs,
+                          schemaOk := sok, exact := schema = "ok", env := { wire := wire } }
+              | some _ => { inst := i, routeProducer := pr, dynamic := dyn, md := md, vals := [],
+                            schemaOk := true, exact := true, fetch := fe, env := { wire := wire } }
+            let (resp, w', evs) := handleExchangeX cfg st.w req
+            ({ st with cfg := some cfg, w := w' }, showResp w' resp evs true)
+          | none => (st, "bad-op")
+      | _, _, _ => (st, "bad-op")
     | _, _, _, _ => (st, "bad-op")
   | "strip" :: rest =>
     match parseMetaWords st.w rest with
